@@ -26,6 +26,9 @@ TIE = {
  "C05": "_add_linear (straight-line part and update-loop body), _query_log*/_add_log* regions",
  "C06": "_rand pointer logic and the body of _log_counter's loop",
  "C07": "the HyperLogLog estimator composed from regenerated pieces on the empty sketch",
+ "C08": "the index arithmetic of parallel_merging (loop test, merger count, block indices, survivor range), _merge_worker's receiver and _fill_queue's pill count",
+ "C12": "the five n-gram drivers (whole-key test, loop bound, slice bounds, multiplicity, callee, rand_ptr threading; ngram = 0 included)",
+ "C19": "_fill_queue's pill count (one per worker)",
  "C09": "_merge_linear and _merge_log16/_merge_log8 cell bodies and counter updates (log: under the stated hypothesis on the np.log quotient)",
  "C17": "_query's decision structure, _linear_counting, _estimation_function, the alpha expression",
  "C18": "_func/_funcprime/_counter2value (real mode), the saturation branches of _log_counter and _merge_log*",
